@@ -165,16 +165,18 @@ func (r *c13Run) handler(msg protocol.Message) error {
 		ok := false
 		admitted := i + 1 // number of messages admitted so far according to the counter
 		for n := i + 1; n <= len(c.Wire); n++ {
-			if r.prefix[n]-r.prefix[i] == pend {
+			// the statement exempts the message being processed: a counter that
+			// has already released it is as good as one that still includes it
+			if r.prefix[n]-r.prefix[i] == pend || r.prefix[n]-r.prefix[i+1] == pend {
 				ok = true
 				admitted = n
 				break
 			}
 		}
 		if !ok {
-			r.failLocked("C13:"+c.Family+":pending-accounting", fmt.Sprintf("at the handler of message #%d the pending counter is %d, which is not the size of any run of messages starting at #%d (sizes %v...)", i, pend, i, clipInts(c.sizes()[i:], 6)), nil)
+			r.failLocked("C13:"+c.Family+":pending-accounting", fmt.Sprintf("at the handler of message #%d the pending counter is %d, which is not the size of any run of messages starting at #%d or #%d (sizes %v...)", i, pend, i, i+1, clipInts(c.sizes()[i:], 6)), nil)
 		}
-		if limit > 0 && pend-len(c.Wire[i]) > limit {
+		if limit > 0 && pend > limit && pend-len(c.Wire[i]) > limit {
 			r.failLocked("C13:"+c.Family+":pending-exceeds-limit", fmt.Sprintf("at the handler of message #%d: %d pending bytes apart from the message itself, limit %d", i, pend-len(c.Wire[i]), limit), nil)
 		}
 		// boundary reached: the next not yet admitted message does not fit
@@ -399,7 +401,12 @@ func genC13Case(rt *rapid.T, thorough bool) *c13Case {
 		"blob-server", "blob-server", "blob-server", "blob-server", "blob-client", "blob-client",
 		"chainsync", "chainsync", "blockfetch", "blockfetch", "incomplete", "large-legal",
 	}).Draw(rt, "family")
-	if !thorough && (c.Family == "incomplete" || c.Family == "large-legal") && rapid.IntRange(0, 2).Draw(rt, "skipHeavy") > 0 {
+	if f := os.Getenv("C13_FAMILY"); f != "" {
+		c.Family = f // experiments only
+	}
+	// the two 16 MiB families cost seconds each (the engine re-parses its buffer per
+	// segment): the quick tier runs one fixed instance of each plus a few drawn ones
+	if !thorough && (c.Family == "incomplete" || c.Family == "large-legal") && rapid.IntRange(0, 4).Draw(rt, "skipHeavy") > 0 {
 		c.Family = "blob-server"
 	}
 	c.Plan, c.plan = genPlan(rt, "lib")
@@ -567,29 +574,22 @@ func genC13Case(rt *rapid.T, thorough bool) *c13Case {
 		c.sumSleepUs += 400_000 + c.GateHoldUs
 	}
 	c.RecvQueue = rapid.SampledFrom([]int{0, 0, 1, 5, 100, 384}).Draw(rt, "recvQueue")
+	// keep the number of Read calls the fragmentation implies around <= 40k
+	vol := 0
+	for _, w := range c.Wire {
+		vol += len(w)
+	}
+	if c.Family == "incomplete" {
+		vol += maxReadBuffer + 2<<20
+	}
+	for len(c.Plan.Chunks) > 0 && len(c.Plan.Chunks) < 64 && vol/avgChunk(c.Plan.Chunks) > 40000 {
+		c.Plan.Chunks = append(c.Plan.Chunks, 0) // 0 = unlimited read
+	}
+	c.plan = fmt.Sprintf("chunks=%v yields=%v", c.Plan.Chunks, c.Plan.Yields)
 	return c
 }
 
 // ---- run ------------------------------------------------------------------------------
-
-func stripTimeouts(sm protocol.StateMap) protocol.StateMap {
-	out := protocol.StateMap{}
-	for s, e := range sm {
-		e.Timeout = 0
-		e.TimeoutFunc = nil
-		out[s] = e
-	}
-	return out
-}
-
-func stateByName(sm protocol.StateMap, name string) protocol.State {
-	for s := range sm {
-		if s.Name == name {
-			return s
-		}
-	}
-	panic("no state " + name)
-}
 
 type c13Outcome struct {
 	fails     []c13Fail
@@ -802,20 +802,26 @@ func runC13Case(c *c13Case) c13Outcome {
 		nHandledWanted = c.Oversize // at most
 	}
 	handledCount := func() int { r.mu.Lock(); defer r.mu.Unlock(); return len(r.handled) }
+	progress := func() int64 {
+		r.mu.Lock()
+		n := int64(len(r.handled) + len(r.acc) + r.released)
+		r.mu.Unlock()
+		return n + tap.nRead.Load() + r.written.Load() + r.decoded.Load()
+	}
 	if !expectError {
-		ok := waitUntil2(patience, nil, func() bool { return gotErr() || handledCount() >= nHandledWanted })
+		ok := waitCond(patience, nil, progress, func() bool { return gotErr() || handledCount() >= nHandledWanted })
 		switch {
 		case gotErr():
 			out.errored = true
 			r.fail("C13:"+c.Family+":spurious-error", fmt.Sprintf("every message is within the limit (%d) but the protocol failed after %d of %d messages: %v", c.Limit, handledCount(), len(c.Wire), firstErr), nil)
 		case !ok:
-			r.fail("C13:"+c.Family+":stalled", fmt.Sprintf("only %d of %d messages were handled within %v (sender slowed down for ever)", handledCount(), len(c.Wire), patience),
+			r.fail("C13:"+c.Family+":stalled", fmt.Sprintf("only %d of %d messages were handled and nothing moved for %v (sender slowed down for ever)", handledCount(), len(c.Wire), patience),
 				map[string]any{"goroutines": goroutineDump(), "pending_now": r.P.VerifPendingRecvBytes(), "muxer_errors": fmt.Sprint(nonBlockingErrs(m.ErrorChan()))})
 		default:
 			out.completed = true
 		}
 		if sib != nil && out.completed {
-			if !sib.waitHandled(c.Sibling, patience, nil) {
+			if !sib.waitHandled(c.Sibling, patience, nil, progress) {
 				r.fail("C13:"+c.Family+":sibling-stalled", fmt.Sprintf("the unlimited sibling protocol handled %d of %d messages", sib.handledCount(), c.Sibling), map[string]any{"goroutines": goroutineDump()})
 			} else {
 				_, h := sib.snapshot()
@@ -828,13 +834,13 @@ func runC13Case(c *c13Case) c13Outcome {
 			}
 		}
 	} else {
-		ok := waitUntil2(patience, nil, gotErr)
+		ok := waitCond(patience, nil, progress, gotErr)
 		if !ok {
 			var what string
 			if c.Family != "incomplete" {
-				what = fmt.Sprintf("message #%d has %d bytes, the limit is %d, but no error was reported within %v (handled %d)", c.Oversize, len(c.Wire[c.Oversize]), c.Limit, patience, handledCount())
+				what = fmt.Sprintf("message #%d has %d bytes, the limit is %d, but no error was reported (no progress for %v, handled %d)", c.Oversize, len(c.Wire[c.Oversize]), c.Limit, patience, handledCount())
 			} else {
-				what = fmt.Sprintf("an incomplete message (%s) grew to %d bytes written by the peer (%d consumed by the library) without an error within %v", c.IncompleteKind, r.written.Load(), tap.nRead.Load(), patience)
+				what = fmt.Sprintf("an incomplete message (%s) grew to %d bytes written by the peer (%d consumed by the library) without an error (then no progress for %v)", c.IncompleteKind, r.written.Load(), tap.nRead.Load(), patience)
 			}
 			r.fail("C13:"+c.Family+":no-error", what, map[string]any{"goroutines": goroutineDump()})
 		} else {
@@ -882,7 +888,7 @@ func runC13Case(c *c13Case) c13Outcome {
 	r.mu.Unlock()
 	if out.completed {
 		// after everything was processed nothing may remain pending
-		if !waitUntil(patience, func() bool { return r.P.VerifPendingRecvBytes() == 0 }) {
+		if !waitCond(patience, nil, progress, func() bool { return r.P.VerifPendingRecvBytes() == 0 }) {
 			r.fail("C13:"+c.Family+":pending-leak", fmt.Sprintf("all %d messages processed but %d bytes still counted as pending", len(c.Wire), r.P.VerifPendingRecvBytes()), nil)
 		}
 		if gotErr() {
@@ -937,6 +943,29 @@ func TestC13(t *testing.T) {
 	protocol.SetVerifTracer(c13Tracer)
 	defer protocol.SetVerifTracer(nil)
 
+	// fixed instances of the 16 MiB clauses, so that every run exercises them
+	for _, fc := range []*c13Case{
+		{Family: "incomplete", Limit: 4096, IncompleteKind: "definite-bytes", Oversize: -1, Gate: -1, Plan: &rawpeer.SeqPlan{}, plan: "unfragmented",
+			Wire: [][]byte{buildBlobOfSize(blobC2S, 100, 1, blobStyle{})}, Delays: []int{0}},
+		{Family: "large-legal", Limit: 0, Oversize: -1, Gate: -1, Plan: &rawpeer.SeqPlan{}, plan: "unfragmented", Cuts: []int{65535},
+			Wire: [][]byte{buildBlobOfSize(blobC2S, 10, 1, blobStyle{}), buildBlobOfSize(blobC2S, maxReadBuffer, 2, blobStyle{}), buildBlobOfSize(blobC2S, 7, 3, blobStyle{})}, Delays: []int{0, 0, 0}},
+	} {
+		fc.Procs = runtime.GOMAXPROCS(0)
+		out := runC13Case(fc)
+		rec.Eval()
+		rec.Class("fixed_" + fc.Family)
+		if fc.Family == "incomplete" {
+			rec.NonTrivial("fixed incomplete definite-bytes", fc.describe())
+		}
+		for _, f := range out.fails {
+			cs := fc.describe()
+			for k, v := range f.extra {
+				cs[k] = v
+			}
+			rec.Violation(f.key, f.what, cs)
+		}
+	}
+
 	rec.Check(func(rt *rapid.T) {
 		c := genC13Case(rt, rec.Thorough())
 		procs, restore := setProcs(rt)
@@ -949,7 +978,9 @@ func TestC13(t *testing.T) {
 			for _, w := range c.Wire {
 				tot += len(w)
 			}
-			fmt.Printf("TIMING %s %.3fs n=%d bytes=%d cuts=%v gate=%d oversize=%d plan=%s\n", c.Family, time.Since(t0).Seconds(), len(c.Wire), tot, c.Cuts, c.Gate, c.Oversize, c.plan)
+			f, _ := os.OpenFile(os.Getenv("C13_DEBUG"), os.O_APPEND|os.O_CREATE|os.O_WRONLY, 0o644)
+			defer f.Close()
+			fmt.Fprintf(f, "TIMING %s %.3fs n=%d bytes=%d cuts=%v gate=%d oversize=%d plan=%s\n", c.Family, time.Since(t0).Seconds(), len(c.Wire), tot, c.Cuts, c.Gate, c.Oversize, c.plan)
 		}
 		rec.Eval()
 		r := out.run
